@@ -3,7 +3,8 @@
 From Coq Require Import List Ascii String Bool Arith PrimFloat.
 From Verif Require Import Base.Result Base.Str Base.Sexp Base.Float Model.Tokenizer Model.Domain Model.Exec
   Spec.Pddl Spec.Grammar Spec.JointPlan Model.PlanConverter
-  Proofs.C15_Loop Proofs.C15_Views Proofs.C15_Effect Proofs.C15_Sound Proofs.C15_Main Proofs.C15_Findings.
+  Proofs.C15_Loop Proofs.C15_Views Proofs.C15_Effect Proofs.C15_Sound Proofs.C15_Scan Proofs.C15_Oracle Proofs.C15_Total
+  Proofs.C15_Main Proofs.C15_Findings.
 Import ListNotations.
 Open Scope string_scope.
 Open Scope list_scope.
@@ -132,6 +133,34 @@ Theorem C15_before_D71_refuted :
   end = true.
 Proof. eexists. split; [exact w71_before|exact w71_before_other_state]. Qed.
 
+(* ---------------------------------------------------------------------------------------------------------
+   The plan FILE.  On every text of the plan-file grammar of Spec/JointPlan.v — actions "(name arg ... arg)" with any
+   white space between and around the tokens, ANY text without '(' between the actions (step numbers, time stamps,
+   line breaks) — the scanner returns exactly the actions, in order, lower-cased, each with the first argument that
+   names an agent as its executing agent (IndexError when there is none). *)
+Theorem C15_scan : forall agents ls final,
+  Forall plan_line_ok ls -> Forall (fun c => c <> LP) final ->
+  extract_plan_actions agents (render_plan ls final) = mapM (expected_pcall agents) ls.
+Proof. exact extract_render. Qed.
+
+(* ... hence, from the file to the joint actions: the regrouping is structurally faithful to the actions WRITTEN IN THE FILE *)
+Theorem C15_structure_of_file : forall dom eps agents flag test init ls final js,
+  Forall plan_line_ok ls -> Forall (fun c => c <> LP) final ->
+  Forall (fun l => is_nop (line_call l) = false) ls ->
+  convert_plan dom eps agents flag test init (render_plan ls final) = Ok js ->
+  structure_ok agents (map line_call ls) js.
+Proof. exact convert_file_structure_lemma. Qed.
+
+(* the decidable structure check that the correspondence uses as its oracle implies the spec *)
+Theorem C15_oracle_sound : forall agents plan js, structure_okb agents plan js = true -> structure_ok agents plan js.
+Proof. exact structure_okb_sound. Qed.
+
+(* a syntactic sufficient condition for the hypothesis pre_total of C15_outcome: comparisons well formed, division only
+   by a non-zero numeral *)
+Theorem C15_pre_total_of_safe : forall dom eps c,
+  (forall ga, mk_op dom c = Ok ga -> gpre_safe (ga_pre ga) = true) -> pre_total dom eps c.
+Proof. exact pre_total_of_safe. Qed.
+
 Print Assumptions C15_structure.
 Print Assumptions C15_structure_loop.
 Print Assumptions C15_fuel_suffices.
@@ -144,3 +173,7 @@ Print Assumptions C15_test_implies_compat.
 Print Assumptions C15_example.
 Print Assumptions C15_before_D25_refuted.
 Print Assumptions C15_before_D71_refuted.
+Print Assumptions C15_scan.
+Print Assumptions C15_structure_of_file.
+Print Assumptions C15_oracle_sound.
+Print Assumptions C15_pre_total_of_safe.
